@@ -196,6 +196,16 @@ class QueueProcessorMixin:
                 # Restore the fast path if the store can enumerate processed IDs
                 self._hydrate_deduplicator()
 
+            # Tell the bloom about this ID BEFORE the handler runs (and after any
+            # rotation above). A handler can commit its transaction -- effects
+            # plus txn.mark_message_processed() -- and still raise afterwards
+            # (post-commit writes, event recording); the mark_seen() below is
+            # then skipped. With dedup_trust_negative_cache the authoritative
+            # bloom would answer "definitely new" for an ID whose processed mark
+            # is durable and the rescheduled delivery would re-run the handler.
+            # A bloom positive is always safe: it only costs the durable check.
+            dedup.mark_seen(message_id)
+
         logger.debug("Handling %s (execution=%s)", get_message_type_name(message), execution_id or "N/A")
 
         handler.handle(message)
